@@ -17,11 +17,14 @@
 //! "span": |xend| (default 1; 1.3 with max_step = 1 gives a second, shortened landing step), "dense": false builds the low-level
 //! solver with dense_output(false), "xis": absolute evaluation points for Solution::sol.
 //! "xout": hex64 makes the recording SolOut answer ControlFlag::XOut(xout) from every callback (sparse-output mode of the low-level API).
+//! "stop_after": k makes the SolOut answer Interrupt from the k-th step callback.  method "RADAU" (low-level only) is supported for
+//! the abscissa / polynomial probes (resp = "poly").
+//! "resp": "polydecay" is y_k' = t^k - y_k.
 //! "resp": "poly" replaces the impulse probe by the time-dependent problem y_k' = t^k; "h0": |first step| (default 1).
 //! All floats cross the boundary as 16-hex-digit tokens of their bits (the *_f fields are informational).
 use ivp::dense::StepInterpolant;
 use ivp::ivp::IVP;
-use ivp::methods::{Tolerance, DOP853, DOPRI5, RK23, RK4};
+use ivp::methods::{Tolerance, DOP853, DOPRI5, RADAU, RK23, RK4};
 use ivp::solout::{ControlFlag, SolOut};
 use ivp::solve::options::{Method, Options};
 use ivp::solve::solve_ivp::solve_ivp;
@@ -45,6 +48,7 @@ struct Probe {
     dim: usize,
     resp: Option<Vec<Vec<f64>>>, // None = unit vectors
     poly: bool,                  // time-dependent sanity problem y_k' = t^k (k = 0..dim-1)
+    decay: bool,                 // with poly: y_k' = t^k - y_k (state-dependent, so that Radau needs several Newton iterations)
     calls: RefCell<Vec<(f64, Vec<f64>)>>,
 }
 
@@ -60,7 +64,7 @@ impl IVP for Probe {
         }
         if self.poly {
             for (i, v) in dydx.iter_mut().enumerate() {
-                *v = x.powi(i as i32);
+                *v = x.powi(i as i32) - if self.decay { y[i] } else { 0.0 };
             }
             return;
         }
@@ -88,7 +92,8 @@ struct Recorder {
     thetas: Vec<f64>,
     dim: usize,
     events: Vec<Value>,
-    ncalls_at: Vec<usize>,
+    stop_after: Option<usize>, // answer Interrupt from the stop_after-th step callback (the initial callback does not count)
+    nsteps: usize,
 }
 
 impl SolOut for Recorder {
@@ -108,6 +113,14 @@ impl SolOut for Recorder {
         self.events.push(json!({"xold": tok(xold), "x": tok(*x), "x_f": fj(*x), "y": toks(y), "y_f": fjs(y),
                                 "has_interp": interpolant.is_some(), "dense": dense,
                                 "interp_xold": sp.map(|p| tok(p.0)), "interp_h": sp.map(|p| tok(p.1))}));
+        if xold != *x || interpolant.is_some() {
+            self.nsteps += 1;
+        }
+        if let Some(k) = self.stop_after {
+            if self.nsteps >= k {
+                return ControlFlag::Interrupt;
+            }
+        }
         match self.xout {
             Some(xo) => ControlFlag::XOut(xo),
             None => ControlFlag::Continue,
@@ -142,9 +155,10 @@ fn run_job(job: &Value) -> Value {
 
     let max_step: Option<f64> = job["max_step"].as_str().map(untok);
 
-    let poly = job["resp"].as_str() == Some("poly");
+    let decay = job["resp"].as_str() == Some("polydecay");
+    let poly = decay || job["resp"].as_str() == Some("poly");
     let h0: f64 = job["h0"].as_str().map(untok).unwrap_or(1.0); // |first step|
-    let probe = Probe { dim, resp, poly, calls: RefCell::new(Vec::new()) };
+    let probe = Probe { dim, resp, poly, decay, calls: RefCell::new(Vec::new()) };
     let y0 = vec![0.0; dim];
     let x0 = 0.0;
     let span: f64 = job["span"].as_str().map(untok).unwrap_or(1.0);
@@ -154,7 +168,8 @@ fn run_job(job: &Value) -> Value {
     let mut out = json!({"id": id, "api": api, "method": method, "dir": dir as i64, "dim": dim});
 
     if api == "lowlevel" {
-        let mut rec = Recorder { xout: job["xout"].as_str().map(untok), thetas: thetas.clone(), dim, events: Vec::new(), ncalls_at: Vec::new() };
+        let mut rec = Recorder { xout: job["xout"].as_str().map(untok), thetas: thetas.clone(), dim, events: Vec::new(),
+                                 stop_after: job["stop_after"].as_u64().map(|k| k as usize), nsteps: 0 };
         let r = catch(|| match method.as_str() {
             "RK4" => RK4::builder().dense_output(dense_on).build().solve(&probe, x0, &y0, xend, dir * h0, Some(&mut rec)),
             "RK23" => {
@@ -182,9 +197,10 @@ fn run_job(job: &Value) -> Value {
                 };
                 s.solve(&probe, x0, &y0, xend, Tolerance::Scalar(rtol), tol_of(&atol), Some(&mut rec))
             }
+            "RADAU" => RADAU::builder().first_step(h0).maybe_max_step(max_step).dense_output(dense_on).build().solve(
+                &probe, x0, &y0, xend, Tolerance::Scalar(rtol), tol_of(&atol), Some(&mut rec)),
             _ => panic!("unknown method"),
         });
-        let _ = &rec.ncalls_at;
         match r {
             Err(p) => {
                 out["panic"] = json!(p);
